@@ -27,6 +27,10 @@ import (
 
 func genLifetimePlan(seed uint64, tier string) *Plan {
 	g := newGen(seed)
+	if g.chance(4) {
+		// pins made by the answers of TCP backends, probed well inside their lifetime (tcpsticky.go)
+		return genTCPStickyPlan(seed, tier)
+	}
 	p := &Plan{Sched: g.intn(3), PCTDepth: 1 + g.intn(2), MapPerm: g.chance(50)}
 	c := genDialogCfg(g, 1, 2, 4)
 	c.Faults = simnetNoFaults()
@@ -235,6 +239,9 @@ type pinModel struct {
 }
 
 func execLifetime(t *testing.T, p *Plan) *Result {
+	if p.Variant == "tcp-backends" {
+		return execTCPSticky(t, p)
+	}
 	r := &Result{}
 	timeout := time.Duration(p.Cfg.Knobs["timeout"]) * time.Second
 	purge := p.Variant == "purge" || p.Variant == "repin"
